@@ -38,9 +38,9 @@ def specPageOf (H : Hasher Node VH) (s : List (Key × VH)) (p : PageId) : MPage 
   { nodes := fun i =>
       let l := idxBits 6 i
       if reachable s (pidBits p) l then specNode H s (pidBits p ++ l) else H.term
-    -- every child page that exists is elided (`handle_elision_threshold` sets the bit when the page is not kept);
-    -- the seek never depends on it: the children are in the page set
-    elided := (List.range 64).foldl (fun acc c => if 2 ≤ (under (pidBits (p ++ [c])) s).length then acc ||| 2 ^ c else acc) 0 }
+    -- `handle_elision_threshold` flags the child pages it does not keep; the seek never depends on the bits of a
+    -- reconstructed page (the children are in the page set): all set here
+    elided := 2 ^ 64 - 1 }
 
 /-- the page `p` and every page below it whose parent node is internal -/
 def specPagesBelow (H : Hasher Node VH) (s : List (Key × VH)) : Nat → PageId → List (PageId × MPage Node × Origin)
